@@ -168,9 +168,11 @@ Proof. exact convert_network_plain_pattern. Qed.
 Print Assumptions C20_cb_plain_inclusion_pattern.
 
 (* (b) ||h and ||h/path.  Partial: only URLs of the shape scheme://[labels.]h path with non-empty
-   labels and no credentials (user:pw@h is the known finding C20_userinfo_url); rules without
-   pattern and hostname (exported as ^https?://) are not covered (known finding
-   C20_patternless_rule_misses_websocket_urls). *)
+   labels and no credentials (user:pw@h is the known finding C20_userinfo_url); the match must
+   start at the beginning of the host or after a label (a rule hostname that itself starts with
+   a dot is the known finding C20_leading_dot_hostname); rules without pattern and hostname
+   (exported as ^https?://) are not covered (known finding
+   C20_patternless_rule_misses_websocket_urls).  The three classes are refuted below. *)
 Theorem C20_cb_plain_inclusion_host_partial : forall norm nf rules h p url r,
   convert_network norm nf = Ok (COk rules) -> In r rules ->
   nf_hostname nf = Some h -> has (nf_mask nf) M_IS_HOSTNAME_REGEX = false ->
@@ -179,3 +181,29 @@ Theorem C20_cb_plain_inclusion_host_partial : forall norm nf rules h p url r,
   ast_matches (r_url r) url.
 Proof. exact convert_network_plain_host. Qed.
 Print Assumptions C20_cb_plain_inclusion_host_partial.
+
+(* the two carve-outs of the inclusion clause, refuted on the model (both replay on the crate):
+   a rule without pattern is exported as ^https?:// and misses the wss:// URL it matches; *)
+Theorem C20_cb_patternless_ws_refuted : forall norm,
+  exists r, convert_network norm patternless_rule = Ok (COk [r]) /\
+            print_regex (r_url r) = bs "^https?://" /\
+            ~ ast_matches (r_url r) (bs "wss://x.com/").
+Proof. exact cb_patternless_ws_refuted. Qed.
+Print Assumptions C20_cb_patternless_ws_refuted.
+
+(* ||a is exported as ^[^:]+:(//)?([^/]+\.)?a, which cannot match s://u@a although a is the host *)
+Theorem C20_cb_userinfo_refuted : forall norm,
+  exists r, convert_network norm userinfo_rule = Ok (COk [r]) /\
+            print_regex (r_url r) = bs "^[^:]+:(//)?([^/]+\.)?a" /\
+            ~ ast_matches (r_url r) (bs "s://u@a").
+Proof. exact cb_userinfo_refuted. Qed.
+Print Assumptions C20_cb_userinfo_refuted.
+
+(* ||.a is exported as ^[^:]+:(//)?([^/]+\.)?\.a, which cannot match s://x.a although the crate's
+   hostname anchoring accepts it *)
+Theorem C20_cb_leading_dot_refuted : forall norm,
+  exists r, convert_network norm leading_dot_rule = Ok (COk [r]) /\
+            print_regex (r_url r) = bs "^[^:]+:(//)?([^/]+\.)?\.a" /\
+            ~ ast_matches (r_url r) (bs "s://x.a").
+Proof. exact cb_leading_dot_refuted. Qed.
+Print Assumptions C20_cb_leading_dot_refuted.
